@@ -33,8 +33,14 @@ def gen_case(seed, idx):
     sources = [('/src/foo-%d.c' % i, '\n\n'.join(f) + '\n') for i, f in enumerate(files)]
     lib = apigen.library(headers=[('/src/foo.h', header)], sources=sources, dump=dump, includes=(['GObject-2.0', 'Gio-2.0', 'GLib-2.0'] if idx % 2 else ['Gio-2.0']),
                          c_includes=['foo.h', 'foo-extra.h'], packages=['gobject-2.0', 'gio-2.0', 'foo-1.0'], shared_libraries=['libfoo.so.1', 'libbar.so.2'])
+    if idx % 3 == 0:
+        # several identifier prefixes and no explicit symbol prefix: the symbol prefixes are derived from the identifier ones
+        lib['identifier_prefixes'] = ['Foo', 'Bar', 'FooBar'][:rng.choice([2, 3])]
+        lib['symbol_prefixes'] = None
+        lib['headers'] = [(lib['headers'][0][0], lib['headers'][0][1] + 'typedef struct _BarThing BarThing;\nstruct _BarThing {\n  gint a;\n};\n'
+                           'void bar_thing_do (BarThing *self);\nvoid foo_bar_init (void);\n#define BAR_LIMIT 3\n')]
     feats = {'classes': len(model['classes']), 'class_structs': sum(1 for c in model['classes'] if c['class_struct']), 'blocks': len(blocks),
-             'ifaces': len(model['ifaces'])}
+             'ifaces': len(model['ifaces']), 'derived_symbol_prefixes': int(idx % 3 == 0)}
     return lib, feats
 
 
@@ -194,7 +200,7 @@ def run(args):
                 if a != b:
                     chk.violation('differs:' + vname.split('=')[0], 'output differs between reference run and variant %s: %s' % (vname, first_diff(a, b)),
                                   {'variant': vname, 'lib': l, 'reference_lib': lib})
-                chk.cls('%s|cls=%d|cs=%d|if=%d' % (vname.split('=')[0], feats['classes'], feats['class_structs'], feats['ifaces']))
+                chk.cls('%s|cls=%d|cs=%d|if=%d|derived-sp=%d' % (vname.split('=')[0], feats['classes'], feats['class_structs'], feats['ifaces'], feats.get('derived_symbol_prefixes', 0)))
             if ci < 2:
                 chk.sample({'variants': [v[0] for v in vs], 'shape': feats, 'sha256_reference': hashlib.sha256(ref['gir'].encode()).hexdigest()})
         chk.extra['harness_failures'] = hf[:5]
